@@ -715,12 +715,28 @@ class Daemon(object):
         if objectId == core.DAEMON_NAME:
             return
         if objectId in self.objectsById:
-            del self.objectsById[objectId]
+            # the id that an object carries can be stale (the object was unregistered by id, or replaced by a forced
+            # registration): never remove what has been registered under that id for something else meanwhile
+            if objectOrId is None or self._isRegisteredAs(objectOrId, objectId):
+                del self.objectsById[objectId]
             if objectOrId is not None:
                 del objectOrId._pyroId
                 del objectOrId._pyroDaemon
                 # Don't remove the custom type serializer because there may be
                 # other registered objects of the same type still depending on it.
+
+    def _isRegisteredAs(self, obj, objectId):
+        """
+        Is obj what this daemon has registered under objectId (or an instance of the class registered there)?
+        The _pyroId attribute of an object alone doesn't tell: it is left on the object when the id is
+        unregistered by name, or taken over by a forced registration of something else.
+        """
+        registered = self.objectsById.get(objectId)
+        if isinstance(registered, weakref.ref):
+            registered = registered()
+        if registered is None:
+            return False
+        return registered is obj or (inspect.isclass(registered) and isinstance(obj, registered))
 
     def uriFor(self, objectOrId, nat=True):
         """
@@ -733,8 +749,9 @@ class Daemon(object):
         return an URI for the internal address.
         """
         if not isinstance(objectOrId, str):
-            objectOrId = getattr(objectOrId, "_pyroId", None)
-            if objectOrId is None or objectOrId not in self.objectsById:
+            obj = objectOrId
+            objectOrId = getattr(obj, "_pyroId", None)
+            if objectOrId is None or not self._isRegisteredAs(obj, objectOrId):
                 raise errors.DaemonError("object isn't registered in this daemon")
         if nat:
             loc = self.natLocationStr or self.locationStr
